@@ -1,4 +1,5 @@
 import OFCore.RuleSys
+import OFCore.EngineTrace
 import OFCore.Drv.Per
 /-!
 Line protocol for the engine domain (`sim`): one self-contained case per line.
@@ -123,12 +124,14 @@ inductive Req
   | add (v : Nat) (p : Period)
   | arm (id : Nat)
   | disarm (id : Nat)
+  | reads
 
 def pReq : Parser Req
   | "calc" :: r => do let (v, r) ← pNat r; let (p, r) ← pPeriod r; pure (.calc v p, r)
   | "add" :: r => do let (v, r) ← pNat r; let (p, r) ← pPeriod r; pure (.add v p, r)
   | "arm" :: r => do let (i, r) ← pNat r; pure (.arm i, r)
   | "disarm" :: r => do let (i, r) ← pNat r; pure (.disarm i, r)
+  | "reads" :: r => some (.reads, r)
   | _ => none
 
 structure SimCase where
@@ -212,11 +215,26 @@ def showKnown (d : Decl) (s : St Period) : String :=
   let sorted := all.toArray.qsort (fun a b => a.1 < b.1) |>.toList
   ",".intercalate (sorted.map (fun e => e.1 ++ "=" ++ e.2))
 
+/-- for every retained computed node: the reads its formula in force performs, in order
+    (`readsOf`): what the full tracer records as the children of that calculation -/
+def showReads (sys : Sys Period) (s : St Period) : String :=
+  let rec dedup (seen : List (Node Period)) : Cache Period → List (String × String)
+    | [] => []
+    | (k, _) :: r =>
+      if seen.contains k then dedup seen r
+      else
+        let rs := readsOf sys k
+        if rs.isEmpty then dedup (k :: seen) r
+        else (s!"{k.1}@{periodKey k.2}", "+".intercalate (rs.map (fun j => s!"{j.1}@{periodKey j.2}"))) :: dedup (k :: seen) r
+  let sorted := (dedup [] s.cache).toArray.qsort (fun a b => a.1 < b.1) |>.toList
+  "T:" ++ ";".intercalate (sorted.map (fun e => e.1 ++ ">" ++ e.2)) |>.replace ";" "&"
+
 def runCase (c : SimCase) : String :=
   let rec go (armed : List Nat) (s : St Period) (out : List String) : List Req → List String × St Period
     | [] => (out.reverse, s)
     | .arm i :: r => go (i :: armed) s ("-" :: out) r
     | .disarm i :: r => go (armed.filter (· ≠ i)) s ("-" :: out) r
+    | .reads :: r => go armed s (showReads (elabSys c.decl armed) s :: out) r
     | .calc v p :: r =>
       let sys := elabSys c.decl armed
       let (res, s') := doCalc sys s (requestNode c.decl v p)
